@@ -46,7 +46,7 @@ def register(R):
     R.add_fields(COORD, transfer_id=Any, _exception_translator=Any, _s3_request=OptT(ExtT('crt_request')), _lock=LockT(),
                  _exception=OptT(ExtT('exception')), _crt_future=OptT(ExtT('cf_future')), _done_event=LockT(kind='event'))
     R.mark_inline(f'{COORD}.__init__', f'{CRT}:CRTTransferMeta.__init__', f'{CRT}:CRTTransferFuture.__init__', f'{ADH}.__init__',
-                  f'{ADH}.__call__', f'{COORD}.set_done_callbacks_complete', f'{COORD}.set_exception', f'{COORD}.done',
+                  f'{ADH}.__call__', f'{COORD}.set_done_callbacks_complete', f'{COORD}.set_exception',
                   f'{COORD}.set_s3_request', f'{MGR}._release_semaphore', f'{ARGS}.get_crt_callback', f'{RTH}.__init__',
                   f'{CRT}:OnBodyFileObjWriter.__init__', f'{MGR}._cancel_transfers', f'{MGR}._finish_transfers',
                   f'{MGR}._wait_transfers_done')
@@ -306,6 +306,49 @@ def register(R):
         R.contract(f'{MGR}.{q}', params={}, inline=True, loops={0: trivial_loop()})
     R.contract(f'{MGR}._cancel_transfers', params={}, inline=True, loops={0: LoopSpec(invariant=lambda l: {}, iteration_checks=cancel_iteration)})
     register_public(R)
+    register_coordinator(R)
+
+
+def register_coordinator(R):
+    """CRTTransferCoordinator.done / result: done() is decided by the CRT request's finished future alone -- which is attached once
+    (set_s3_request) and which result() never forgets -- so, like the classic coordinator's (C17), it never goes back to False;
+    result() drops only the request handle."""
+    from pyvc.values import to_z3_bool
+    R.external('cf_future', done=ExtSpec(returns=Bool, raises=()), result=ExtSpec(raises=('Exception', 'KeyboardInterrupt'), blocking=True))
+    R.external('crt_request', cancel=ExtSpec(raises=()))
+    R.external('crt_translator', **{'()': ExtSpec(returns=OptT(ExtT('exception')), raises=('Exception',))})
+
+    def done_value(c, st):
+        f = st.obj(c.self).fields['_crt_future']
+        if isinstance(f, Opt):
+            r = z3.Bool('crt_future_done!' + str(len(st.trace)))
+            return z3.And(z3.Not(f.is_none), r)
+        return False if f is None else z3.Bool('crt_future_done!' + str(len(st.trace)))
+
+    def done_post(c):
+        dn = [e for e in c.trace if e.kind == 'ext' and e.name == 'cf_future.done']
+        f = c.oldf('_crt_future')
+        none = f.is_none if isinstance(f, Opt) else B(f is None)
+        res = to_z3_bool(c.result)
+        # (what done() answers while no request is attached -- construction still running or failed -- is not constrained here)
+        return {'once_a_request_is_attached_done_is_what_its_finished_future_says': z3.Or(
+            none, z3.And(B(len(dn) == 1), res == to_z3_bool(dn[0].result)) if dn else B(False))}
+
+    R.contract(f'{COORD}.done', props=['C20', 'C17'], params={}, checks=done_post, returns=done_value, raises={}, modifies=lambda c: [])
+    R.mark_inline(f'{COORD}.cancel')
+    R.contract(f'{COORD}.handle_exception', params=dict(exc=ExtT('exception')), raise_when={'Exception': lambda c: None, '$stored': lambda c: None},
+               raises={'Exception': lambda c: {}, '$stored': lambda c: {}}, modifies=lambda c: [])
+    R.contract(f'{COORD}.result', props=['C20', 'C17'], params=dict(timeout=Const(None)), top_level=False,
+               self_type=ObjT(COORD, _exception_translator=ExtT('crt_translator')),
+               # what _submit_transfer establishes for every coordinator it hands out: a construction error is recorded, or the
+               # request (and with it the finished future) is attached
+               requires=lambda c: [('construction_failed_or_request_attached', z3.Or(
+                   z3.Not(is_none(c.oldf('_exception'))), z3.Not(is_none(c.oldf('_crt_future')))))],
+               ensures=lambda c: {'the_finished_future_stays_attached': B(c.newf('_crt_future') is c.oldf('_crt_future'))},
+               raises={'$stored': lambda c: {'the_finished_future_stays_attached': B(c.newf('_crt_future') is c.oldf('_crt_future'))},
+                       'Exception': lambda c: {'the_finished_future_stays_attached': B(c.newf('_crt_future') is c.oldf('_crt_future'))},
+                       'KeyboardInterrupt': lambda c: {'the_finished_future_stays_attached': B(c.newf('_crt_future') is c.oldf('_crt_future'))}},
+               modifies=lambda c: [('f', c.self, '_s3_request')])
 
 
 def register_public(R):
